@@ -187,6 +187,13 @@ func (e *Exec) sourceLine(pos token.Position) string {
 
 // definitePanic: the current path certainly panics here.
 func (e *Exec) definitePanic(kind, msg string) {
+	if len(e.guard) > 0 {
+		g := e.guard
+		e.guard = nil
+		e.require(e.tb.Not(e.tb.BAnd(g...)), kind, msg)
+		e.guard = g
+		panic(unsupported("definite panic inside an if-converted region (guard assumed false): " + msg))
+	}
 	if e.catchDepth > 0 {
 		panic(&targetPanic{val: e.strConst(msg), site: e.where()})
 	}
@@ -200,6 +207,13 @@ func (e *Exec) definitePanic(kind, msg string) {
 func (e *Exec) require(ok *sym.Term, kind, msg string) {
 	if ok.IsTrue() {
 		return
+	}
+	if len(e.guard) > 0 {
+		// inside an if-converted region the check only matters when the region's guard holds
+		ok = e.tb.Implies(e.tb.BAnd(e.guard...), ok)
+		if ok.IsTrue() {
+			return
+		}
 	}
 	if ok.IsFalse() {
 		e.definitePanic(kind, msg)
@@ -273,6 +287,11 @@ func (e *Exec) callFunction(fn *ssa.Function, args []Value, bind []Value) Value 
 	if h, ok := intrinsics[name]; ok {
 		e.rep.Stubs[name]++
 		return h(e, fn, args)
+	}
+	if e.cfg.Summarize[name] {
+		if r := e.trySummary(fn, args); r != nil {
+			return r
+		}
 	}
 	if fn.Pkg != nil && e.harness != nil && fn.Pkg == e.harness.Pkg && fn.Blocks == nil {
 		if h, ok := harnessAPI[fn.Name()]; ok {
